@@ -98,7 +98,8 @@ def _mixed(points, shape):
     if n < 2:
         return []
     mask = (np.arange(n) % 2 == 0).reshape(shape)
-    return [np.where(mask, p_, q_) for p_, q_ in zip(points[:-1], points[1:])] + [np.where(mask, points[-1], points[0])]
+    head = points[:8]
+    return [np.where(mask, head[i], head[j]) for i in range(len(head)) for j in range(len(head)) if i != j]
 
 
 def eval_points(fam, a, b, shape):
@@ -153,7 +154,7 @@ def run_case(case):
         if seen[sig] <= 1:
             viols.append({"sig": sig, "msg": msg, "detail": {k: v for k, v in case.items() if k != "id"}})
 
-    def cmp_logprob(d, ref_fn, X, shape, what, edge=None):
+    def cmp_logprob(d, ref_fn, X, shape, what, edge=None, restricted=False):
         nonlocal tr, nt, sample, max_ratio
         lp = np.asarray(d.log_prob(jnp.asarray(X)), float)
         with np.errstate(all="ignore"):
@@ -172,6 +173,9 @@ def run_case(case):
         with np.errstate(invalid="ignore"):
             err = np.abs(lp - ref)
         tol = 1e-9 * n_ev * (1 + np.abs(ref))
+        if restricted:
+            tol = np.where(np.isfinite(ref), tol, 0.0)  # outside a restricted support the reference -inf must be met exactly, not "within inf"
+        # (for full-support families an infinite reference is an underflow of scipy's own logpdf, e.g. Laplace beyond 745 scales: not judged)
         bad = ~((err <= tol) | (lp == ref))
         bad &= ~np.isnan(lp)
         if edge is not None:
@@ -254,8 +258,9 @@ def run_case(case):
             if fam == "Uniform":
                 edge = ((np.abs(X - A2) <= 4e-16 * (np.abs(A2) + B2)) | (np.abs(X - A2 - B2) <= 4e-16 * (np.abs(A2) + B2))).reshape(X.shape[0], -1).any(1)
             elif fam in ("Exponential", "LogNormal"):
-                edge = (X == 0).reshape(X.shape[0], -1).any(1)
-            cmp_logprob(d, ref.logpdf, X, shape, f"params a={a.tolist()} b={b.tolist()} df={None if df is None else df.tolist()}", edge=edge)
+                edge = (np.abs(X) <= 1e-290).reshape(X.shape[0], -1).any(1)  # 0 and the values that flush to 0 once multiplied by the rate
+            cmp_logprob(d, ref.logpdf, X, shape, f"params a={a.tolist()} b={b.tolist()} df={None if df is None else df.tolist()}", edge=edge,
+                        restricted=fam in ("Uniform", "Exponential", "LogNormal"))
             cmp_access(d, acc, shape)
             if leg == "family" and acc:
                 # non-initial states: every trainable leaf moved (as training does); the density must be the textbook density of
@@ -282,8 +287,9 @@ def run_case(case):
                         A3, B3 = np.broadcast_to(a2, shape), np.broadcast_to(b2, shape)
                         edge2 = ((np.abs(X2 - A3) <= 4e-16 * (np.abs(A3) + B3)) | (np.abs(X2 - A3 - B3) <= 4e-16 * (np.abs(A3) + B3))).reshape(X2.shape[0], -1).any(1)
                     elif fam == "Exponential":
-                        edge2 = (X2 == 0).reshape(X2.shape[0], -1).any(1)
-                    cmp_logprob(dl, ref2.logpdf, X2, shape, f"trained state {lvl}: accessors " + str({k_: v_.tolist() for k_, v_ in rd.items()}), edge=edge2)
+                        edge2 = (np.abs(X2) <= 1e-290).reshape(X2.shape[0], -1).any(1)
+                    cmp_logprob(dl, ref2.logpdf, X2, shape, f"trained state {lvl}: accessors " + str({k_: v_.tolist() for k_, v_ in rd.items()}), edge=edge2,
+                                restricted=fam in ("Uniform", "Exponential", "LogNormal"))
             if leg == "family" or ci % 4 == 0:
                 A_, B_ = np.broadcast_to(a, shape).reshape(-1), np.broadcast_to(b, shape).reshape(-1)
                 DF_ = None if df is None else np.broadcast_to(df, shape).reshape(-1)
